@@ -54,6 +54,7 @@ type Loc struct {
 	Ghost string // ghost function name: whole ghost map
 	Elems Expr   // elems(slice)
 	Footprint bool // everything the callee's in-repo reach may write (computed on SSA, see frame.go)
+	Cell  Expr   // cell(ptr): the variable a pointer points to
 	Src   string
 }
 
@@ -85,6 +86,17 @@ type FuncSpec struct {
 	File        string
 	PkgPath     string // package the contract is resolved in
 	Fresh       []string // result names that are freshly allocated (extern)
+	GhostSets   []GhostSet // ghost updates executed at every return, before the postconditions are checked
+	BoundK      int        // bounded mode: loops without invariant unrolled BoundK times (0 = unbounded proof)
+	BoundD      int        // bounded mode: self-recursion inlined to this depth
+	Unknown     map[string]bool // package-level variables whose (constant) initial value must not be used: both settings are verified
+}
+
+type GhostSet struct {
+	Ghost string
+	Arg   Expr
+	Val   Expr
+	Src   string
 }
 
 type PredSpec struct {
@@ -99,6 +111,8 @@ type SpecFn struct {
 	Ret       string
 	Body      Expr // nil => uninterpreted
 	Decreases Expr
+	Reads     []string // Type.field heaps the body reads (heap-dependent spec function)
+	Recursive bool
 	PkgPath   string
 }
 type GhostSpec struct {
@@ -212,7 +226,7 @@ type parser struct {
 
 var itemKw = map[string]bool{"pred": true, "spec": true, "ghost": true, "lemma": true, "iface": true, "func": true, "extern": true, "axiom": true, "package": true}
 var clauseKw = map[string]bool{"requires": true, "ensures": true, "modifies": true, "reads": true, "panics": true, "decreases": true,
-	"checks": true, "inline": true, "trusted": true, "loop": true, "invariant": true, "pure": true, "returns": true, "nilable": true, "params": true, "nosafety": true, "fresh": true}
+	"checks": true, "inline": true, "trusted": true, "loop": true, "invariant": true, "pure": true, "returns": true, "nilable": true, "params": true, "nosafety": true, "fresh": true, "ghostset": true, "bounded": true, "unknown": true}
 
 func (p *parser) peek() tok { return p.toks[p.p] }
 func (p *parser) next() tok { t := p.toks[p.p]; p.p++; return t }
@@ -443,6 +457,15 @@ func (p *parser) parsePrimary() Expr {
 			e := p.parseExpr()
 			p.expectOp(")")
 			return &EOld{e}
+		case "addrof":
+			p.expectOp("(")
+			name := p.ident()
+			for p.isOp(".") || p.isOp("/") {
+				name += p.next().s
+				name += p.ident()
+			}
+			p.expectOp(")")
+			return &ECall{Fn: "addrof", TypeArgs: []string{name}}
 		case "typeis", "zero", "cast":
 			// typeis(e, T) ; zero(T) ; cast(e, T)
 			p.expectOp("(")
@@ -581,6 +604,11 @@ func (p *parser) parseLocs() []Loc {
 		case p.isId("footprint"):
 			p.next()
 			l.Footprint = true
+		case p.isId("cell"):
+			p.next()
+			p.expectOp("(")
+			l.Cell = p.parseExpr()
+			p.expectOp(")")
 		case p.isId("elems"):
 			p.next()
 			p.expectOp("(")
@@ -674,9 +702,19 @@ func parseSpecText(file, pkgPath, src string, sp *Specs) (err error) {
 			params := p.parseParams()
 			ret := p.parseType()
 			f := &SpecFn{Name: name, Params: params, Ret: ret, PkgPath: pkgPath}
-			if p.isId("decreases") {
-				p.next()
-				f.Decreases = p.parseExpr()
+			for p.isId("reads") || p.isId("decreases") || p.isId("recursive") {
+				switch p.next().s {
+				case "reads":
+					f.Reads = append(f.Reads, p.parseType())
+					for p.isOp(",") {
+						p.next()
+						f.Reads = append(f.Reads, p.parseType())
+					}
+				case "decreases":
+					f.Decreases = p.parseExpr()
+				case "recursive":
+					f.Recursive = true
+				}
 			}
 			if p.isOp("=") {
 				p.next()
@@ -759,6 +797,27 @@ func parseSpecText(file, pkgPath, src string, sp *Specs) (err error) {
 					f.Inline = true
 				case "nosafety":
 					f.NoSafety = true
+				case "unknown":
+					if f.Unknown == nil {
+						f.Unknown = map[string]bool{}
+					}
+					f.Unknown[p.ident()] = true
+				case "bounded":
+					// bounded k d
+					t := p.next()
+					fmt.Sscanf(t.s, "%d", &f.BoundK)
+					if p.peek().k == "int" {
+						fmt.Sscanf(p.next().s, "%d", &f.BoundD)
+					}
+				case "ghostset":
+					a := p.p
+					g := p.ident()
+					p.expectOp("(")
+					arg := p.parseExpr()
+					p.expectOp(")")
+					p.expectOp("=")
+					val := p.parseExpr()
+					f.GhostSets = append(f.GhostSets, GhostSet{g, arg, val, p.srcBetween(a, p.p)})
 				case "trusted":
 					t := p.next()
 					f.Trusted = t.s
